@@ -67,6 +67,82 @@ theorem reach_trans {f : Nat → Option Nat} {n : Nat} {s t u : St}
   | refl => exact h1
   | step _ hs ih => exact Reach.step ih hs
 
+/-! ### panicking callbacks -/
+
+/-- number of panicking tasks still owed (pending or in flight) -/
+def owedPanics (f : Nat → Option (Option Nat)) (s : PSt) : Nat :=
+  (s.pending.filter (fun x => (f x.2).isNone)).length + (s.inflight.filter isPanic).length
+
+def pcontent (f : Nat → Option (Option Nat)) (s : PSt) : List (Nat × Nat) :=
+  s.out ++ (s.inflight.flatMap pemit ++ s.pending.filterMap (pexpect1 f))
+
+theorem pemit_eq_expect (f : Nat → Option (Option Nat)) (c a : Nat) :
+    pemit (c, f a) = (pexpect1 f (c, a)).toList := by
+  unfold pexpect1 pemit
+  cases h : f a with
+  | none => simp
+  | some r => cases r <;> simp
+
+theorem pstep_content {f : Nat → Option (Option Nat)} {n : Nat} {s t : PSt} (h : PStep f n s t) :
+    (pcontent f t).Perm (pcontent f s) := by
+  cases h with
+  | start c a rest infl out _ =>
+    simp only [pcontent, List.flatMap_append, List.flatMap_cons, List.flatMap_nil, List.append_nil,
+      filterMap_cons_toList, pemit_eq_expect, List.append_assoc]
+    exact List.Perm.refl _
+  | finish pend infl out i hi =>
+    simp only [pcontent, List.append_assoc]
+    apply List.Perm.append_left
+    rw [← List.append_assoc]
+    apply List.Perm.append_right
+    have := (getElem_cons_eraseIdx_perm infl i hi).flatMap_right pemit
+    simpa [List.flatMap_cons] using this
+
+theorem preach_content {f : Nat → Option (Option Nat)} {n : Nat} {s t : PSt} (h : PReach f n s t) :
+    (pcontent f t).Perm (pcontent f s) := by
+  induction h with
+  | refl => exact List.Perm.refl _
+  | step _ hs ih => exact (pstep_content hs).trans ih
+
+theorem filter_eraseIdx_length {α : Type} (p : α → Bool) : ∀ (l : List α) (i : Nat) (h : i < l.length),
+    (l.filter p).length = ((l.eraseIdx i).filter p).length + (if p l[i] then 1 else 0) := by
+  intro l i h
+  have hp := (getElem_cons_eraseIdx_perm l i h).filter p
+  have := hp.length_eq
+  rw [← this, List.filter_cons]
+  split <;> simp
+
+/-- a step that does not fail keeps the number of owed panics -/
+theorem pstep_owed {f : Nat → Option (Option Nat)} {n : Nat} {s t : PSt} (h : PStep f n s t)
+    (ht : t.failed = false) : owedPanics f t = owedPanics f s := by
+  cases h with
+  | start c a rest infl out _ =>
+    simp only [owedPanics, List.filter_cons, List.filter_append, List.length_append, isPanic]
+    cases f a <;> simp <;> omega
+  | finish pend infl out i hi =>
+    simp only at ht
+    simp only [owedPanics]
+    rw [filter_eraseIdx_length isPanic infl i hi, ht]
+    simp
+
+theorem preach_failed_mono {f : Nat → Option (Option Nat)} {n : Nat} {s t : PSt} (h : PReach f n s t)
+    (hs : s.failed = true) : t.failed = true ∧ t = s := by
+  induction h with
+  | refl => exact ⟨hs, rfl⟩
+  | step _ hstep ih =>
+    obtain ⟨h1, h2⟩ := ih
+    subst h2
+    cases hstep <;> simp at hs
+
+theorem preach_owed {f : Nat → Option (Option Nat)} {n : Nat} {s t : PSt} (h : PReach f n s t)
+    (ht : t.failed = false) : owedPanics f t = owedPanics f s := by
+  induction h with
+  | refl => rfl
+  | @step t' u hr hstep ih =>
+    have h1 := pstep_owed hstep ht
+    have h2 : t'.failed = false := by cases hstep <;> rfl
+    rw [h1, ih h2]
+
 /-! ### the executable scheduler is a run of the transition system -/
 
 theorem fill_reach (f : Nat → Option Nat) (n : Nat) : ∀ (pend : List Item) (infl : List Task)
